@@ -5,7 +5,7 @@ import "verif/internal/eng"
 func init() {
 	register(&Property{
 		ID: "C49",
-		Explanation: "Decides totality (no crash), not exactness: (parser-no-panic) for every parser of user-supplied text — all pflag.Value.Set implementations of the module and the named parsers (ParseDuration, ParseBytes, stringToIntSlice, parsePercentage, options.Parse/Apply, SplitShellStrings, checkFlags, verifyForgetOptions, verifyPruneOptions) — no function in its call closure contains a panic whose operand carries an error value (the `panic(err)` pattern that turns a failed conversion of the input into a crash); frozen exception: options.Apply's developer-error panics on malformed struct tags. This rule reported the genuine defect in data.nextNumber (range error of strconv.Atoi), now fixed; (strconv-errors) the error of every strconv.Parse*/Atoi in the parsers is examined; (bitsize-agreement) the bit size of every ParseInt/ParseUint fits the type its result is converted to, and ParseBytes returns a value only on the high-word==0 and value>=0 edges of its bits.Mul64 product; (apply-exhaustive) every option struct handed to options.Register/Apply has only `option` fields of kinds Apply's switch handles; (decimal-base) every ParseInt/ParseUint of the command layer uses the constant base 10 (named exception: extended options) — added after a seeded change that read --keep-last 010 as 8; (float-not-nan) a value parsed with ParseFloat is used only behind math.IsNaN false or an ordered comparison that held — NaN passed the range checks of --read-data-subset and --max-unused (genuine defect, fixed); (duration-parse) ParseDuration assigns each unit behind a not-seen-before test and the hours behind a constant range test — hours beyond 2562047 overflowed time.Duration when the policy was applied and forget --keep-within removed every snapshot, a repeated unit kept only the last number (genuine defects, demonstrated, fixed). Not decided: that accepted values denote exactly the parsed number and that durations print back to an equal value.",
+		Explanation: "Decides totality (no crash), not exactness: (parser-no-panic) for every parser of user-supplied text — all pflag.Value.Set implementations of the module and the named parsers (ParseDuration, ParseBytes, stringToIntSlice, parsePercentage, options.Parse/Apply, SplitShellStrings, checkFlags, verifyForgetOptions, verifyPruneOptions) — no function in its call closure contains a panic whose operand carries an error value (the `panic(err)` pattern that turns a failed conversion of the input into a crash); frozen exception: options.Apply's developer-error panics on malformed struct tags. This rule reported the genuine defect in data.nextNumber (range error of strconv.Atoi), now fixed; (strconv-errors) the error of every strconv.Parse*/Atoi in the parsers is examined; (bitsize-agreement) the bit size of every ParseInt/ParseUint fits the type its result is converted to, and ParseBytes returns a value only on the high-word==0 and value>=0 edges of its bits.Mul64 product; (apply-exhaustive) every option struct handed to options.Register/Apply has only `option` fields of kinds Apply's switch handles; (decimal-base) every ParseInt/ParseUint of the command layer uses the constant base 10 (named exception: extended options) — added after a seeded change that read --keep-last 010 as 8; (float-not-nan) a value parsed with ParseFloat is used only behind math.IsNaN false or an ordered comparison that held — NaN passed the range checks of --read-data-subset and --max-unused (genuine defect, fixed); (duration-parse) ParseDuration assigns each unit behind a not-seen-before test and the hours behind a constant range test — hours beyond 2562047 overflowed time.Duration when the policy was applied and forget --keep-within removed every snapshot, a repeated unit kept only the last number, and years, months and days — which go to time.Time.AddDate — are assigned behind a constant range test as well: counts of a few hundred billion years wrapped with the same effect (genuine defects, demonstrated, fixed). Not decided: that accepted values denote exactly the parsed number and that durations print back to an equal value.",
 		Assumptions: commonAssumptions,
 		Technique:   "static analysis: call-closure scan for error-carrying panics + bit-size/type agreement + CFG edge cuts (go/ssa)",
 		Run: func(c *eng.Ctx) {
@@ -21,6 +21,8 @@ func init() {
 				Old: "	if math.IsNaN(p) {\n		return 0, errors.Errorf(\"parsePercentage: %q is not a number\", s)\n	}\n", New: "	_ = math.NaN\n", Rule: "float-not-nan"},
 			{Name: "pack-size-env-any-base", File: "internal/global/global.go",
 				Old: "strconv.ParseUint(envVal, 10, 32)", New: "strconv.ParseUint(envVal, 0, 32)", Rule: "decimal-base"},
+			{Name: "years-months-days-unbounded", File: "internal/data/duration.go",
+				Old: "			if int64(num) > maxDateCount || int64(num) < -maxDateCount {", New: "			if int64(num) > maxDateCount && int64(num) < -maxDateCount {", Rule: "duration-parse"},
 			{Name: "hours-unbounded", File: "internal/data/duration.go",
 				Old: "			if int64(num) > maxHours || int64(num) < -maxHours {", New: "			if int64(num) < -maxHours {", Rule: "duration-parse"},
 			{Name: "atoi-range-error-panics", File: "internal/data/duration.go",
